@@ -411,6 +411,11 @@ def tasks(tier, seed):
                                'custom': custom})
     for ch in core.spread(rt, 64):
         ts.append({'t': 'cases', 'cases': ch})
+    # files beyond 1 MiB ("any number of records"): 4500 messages of mixed shapes, ~1.4 MB
+    if core.AXIS == '':
+        for enc, blocked, custom in (('cp500', True, False), ('latin_1', False, True), ('cp037', True, True)):
+            ts.append({'t': 'cases', 'cases': [{'kind': 'rt', 'seq': {'count': 4500, 'step': 1 + 3 * blocked},
+                                                'enc': enc, 'blocked': blocked, 'custom': custom}]})
     ts.append({'t': 'cases', 'cases': [{'kind': 'rt_inplace', 'enc': enc, 'blocked': blocked, 'edits': edits}
                                        for edits in INPLACE_EDITS for enc in ('latin_1', 'cp500')
                                        for blocked in (False, True)]})
